@@ -11,11 +11,13 @@ import (
 	"encoding/json"
 	"fmt"
 	"reflect"
+	"runtime"
 	"sort"
 	"sync"
 	"sync/atomic"
 	"time"
 
+	"tunnox-core/internal/security"
 	"tunnox-core/verifharness/fw"
 	"tunnox-core/verifharness/srvkit"
 )
@@ -34,6 +36,7 @@ type expT struct {
 	Reg  []string          `json:"reg"`
 	Sess []string          `json:"sess"`
 	Tcl  []string          `json:"tcl"`
+	Cap  int               `json:"cap"` // ClientRegistry cap of the configuration (0 = none)
 }
 
 type opT struct {
@@ -45,6 +48,8 @@ type opT struct {
 	Keep []string `json:"keep"`
 	Out  string   `json:"out"`
 	Exp  *expT    `json:"exp"`
+	NB   bool     `json:"nb,omitempty"`     // concurrent mode: this Login does not wait at the rendezvous
+	Jit  int      `json:"jitter,omitempty"` // concurrent mode: random busy-wait of up to Jit ns after the rendezvous
 }
 
 type parT struct {
@@ -215,6 +220,14 @@ func (r *runner) step(o opT) (fw.Event, string) {
 				ev["oktun"] = o.C
 			}
 		}
+	case "Knock":
+		// a handshake that cannot authenticate: phase 1 for an identity nobody was issued
+		if s := needOpen(); s != "" {
+			return nil, s
+		}
+		if _, _, err := c.Phase1(900000777, "control"); err != nil {
+			return nil, err.Error()
+		}
 	case "Close":
 		if s := needOpen(); s != "" {
 			return nil, s
@@ -317,8 +330,10 @@ func (r *runner) step(o opT) (fw.Event, string) {
 	return ev, ""
 }
 
-func newServer(timed bool) (*srvkit.Server, error) {
-	o := srvkit.Options{}
+func newServer(timed bool, cap int, maxFail int) (*srvkit.Server, error) {
+	// sequential behaviours: brute-force threshold = model constant MaxFail (Session_c07*.cfg)
+	o := srvkit.Options{MaxControlConnections: cap, BruteForce: &security.BruteForceConfig{MaxFailures: maxFail,
+		TimeWindow: time.Hour, BanDuration: time.Hour, PermanentBanAt: 1000, CleanupInterval: time.Hour}}
 	if timed {
 		o.HeartbeatTimeout, o.CleanupInterval = hbTimeout, hbSweep
 	} else {
@@ -332,7 +347,7 @@ func driveSeq(ops []opT) *fw.Trace {
 		return &fw.Trace{Status: fw.DriverError, Note: "behaviour without model projection"}
 	}
 	timed := hasTick(ops)
-	s, err := newServer(timed)
+	s, err := newServer(timed, ops[0].Exp.Cap, 3)
 	if err != nil {
 		return &fw.Trace{Status: fw.DriverError, Note: err.Error()}
 	}
@@ -374,55 +389,91 @@ func driveSeq(ops []opT) *fw.Trace {
 // ---------------------------------------------------------------------------------------------
 // concurrent mode
 
-// rendezvous releases n goroutines together.
+// rendezvous releases n goroutines together: busy-wait on a flag (a channel wake-up goes
+// through the scheduler and spreads the goroutines over microseconds), then an optional random
+// busy-wait so that over many rounds every relative offset of the racing sections occurs.
 type rendezvous struct {
-	mu   sync.Mutex
-	n    int
-	seen int
-	ch   chan struct{}
+	n    int32
+	seen atomic.Int32
+	open atomic.Bool
+	rnd  *lockedRand
 }
 
-func (b *rendezvous) wait() {
-	b.mu.Lock()
-	b.seen++
-	ch := b.ch
-	if b.seen >= b.n {
-		close(b.ch)
+type lockedRand struct {
+	mu sync.Mutex
+	r  interface{ Intn(int) int }
+}
+
+func (l *lockedRand) intn(n int) int {
+	l.mu.Lock()
+	defer l.mu.Unlock()
+	return l.r.Intn(n)
+}
+
+func (b *rendezvous) wait(jitter int) {
+	if b.seen.Add(1) >= b.n {
+		b.open.Store(true)
 	}
-	b.mu.Unlock()
-	select {
-	case <-ch:
-	case <-time.After(200 * time.Millisecond): // a partner failed before its final write: do not hang
+	start := time.Now()
+	for i := 0; !b.open.Load(); i++ {
+		if i%64 == 63 {
+			if time.Since(start) > 200*time.Millisecond { // a partner failed before it got here: do not hang
+				break
+			}
+			runtime.Gosched()
+		}
+	}
+	if jitter > 0 {
+		d := time.Duration(b.rnd.intn(jitter))
+		for t0 := time.Now(); time.Since(t0) < d; {
+		}
 	}
 }
 
 func drivePar(env *fw.Env, p parT) *fw.Trace {
-	s, err := newServer(false)
-	if err != nil {
-		return &fw.Trace{Status: fw.DriverError, Note: err.Error()}
-	}
-	defer func() { s.Close() }()
 	t := &fw.Trace{Status: fw.Realised}
-	// one identity per client name, issued on a bootstrap connection that is then closed
 	clientNames := []string{"A", "B"}
 	type cred struct {
 		id     int64
 		secret string
 	}
+	var s *srvkit.Server
 	creds := map[string]cred{}
-	for i, n := range clientNames {
-		bc, err := s.NewConn(fmt.Sprintf("10.8.0.%d", i+1))
-		if err != nil {
-			return &fw.Trace{Status: fw.DriverError, Note: err.Error()}
+	// boot: a fresh server (rounds with losing handshakes must never add up to a ban: threshold out
+	// of reach) with one identity per client name, issued on a bootstrap connection that is closed
+	boot := func() error {
+		if s != nil {
+			s.Close()
 		}
-		id, secret, _, err := bc.FirstConnect("control")
-		if err != nil || id == 0 {
-			return &fw.Trace{Status: fw.DriverError, Note: "bootstrap first connect failed"}
+		var err error
+		if s, err = newServer(false, 0, 1<<30); err != nil {
+			return err
 		}
-		creds[n] = cred{id, secret}
-		bc.Disconnect()
+		for i, n := range clientNames {
+			bc, err := s.NewConn(fmt.Sprintf("10.8.0.%d", i+1))
+			if err != nil {
+				return err
+			}
+			id, secret, _, err := bc.FirstConnect("control")
+			if err != nil || id == 0 {
+				return fmt.Errorf("bootstrap first connect failed")
+			}
+			creds[n] = cred{id, secret}
+			bc.Disconnect()
+		}
+		return nil
 	}
+	if err := boot(); err != nil {
+		return &fw.Trace{Status: fw.DriverError, Note: err.Error()}
+	}
+	defer func() { s.Close() }()
+	rnd := &lockedRand{r: fw.NewRand(env.Seed*7919 + int64(len(p.Name)))}
 	for round := 0; round < p.Rounds; round++ {
+		if round > 0 && round%300 == 0 { // the kit remembers every connection it accepted: start afresh now and then
+			if err := boot(); err != nil {
+				return &fw.Trace{Status: fw.DriverError, Note: err.Error()}
+			}
+		}
 		connNames := []string{}
 		for gi := range p.Par {
 			connNames = append(connNames, fmt.Sprintf("c%d", gi+1))
@@ -437,7 +488,17 @@ func drivePar(env *fw.Env, p parT) *fw.Trace {
 				return &fw.Trace{Status: fw.DriverError, Note: err.Error()}
 			}
 		}
-		rv := &rendezvous{n: len(p.Par), ch: make(chan struct{})}
+		// participants of the rendezvous: scripts with a waiting Login (Barrier scenarios) or a Sync
+		parts := int32(0)
+		for _, script := range p.Par {
+			for _, o := range script {
+				if o.Op == "Sync" || (o.Op == "Login" && p.Barrier && !o.NB) {
+					parts++
+					break
+				}
+			}
+		}
+		rv := &rendezvous{n: parts, rnd: rnd}
 		var mu sync.Mutex
 		logged, closed, ctl := []string{}, []string{}, []string{}
 		var panics []string
@@ -465,10 +526,11 @@ func drivePar(env *fw.Env, p parT) *fw.Trace {
 						if err != nil || ch == "" {
 							continue
 						}
-						if p.Barrier {
-							// the next write on this transport is the success response, written by
-							// sendHandshakeResponse immediately before the registry section
-							c.T.BeforeNextWrite(rv.wait)
+						if p.Barrier && !o.NB {
+							// the next packet on this transport is the success response; its last Write is
+							// the last thing sendHandshakeResponse does before the registry section
+							jit := o.Jit
+							c.T.AfterNextPacket(func() { rv.wait(jit) })
 						}
 						resp, err := c.Phase2(cr.id, srvkit.HMAC(cr.secret, ch), "control")
 						if err == nil && resp != nil && resp.Success {
@@ -486,6 +548,19 @@ func drivePar(env *fw.Env, p parT) *fw.Trace {
 						mu.Unlock()
 					case "Heartbeat":
 						_ = c.Heartbeat()
+					case "Sync":
+						rv.wait(o.Jit)
+					case "CloseConn":
+						// what the stale sweep does to connection o.C from its own goroutine:
+						// SessionManager.CloseConnection (registry entry, session entry, transport)
+						if tc := w.Conn(o.C); tc != nil {
+							tc.Disconnect()
+							mu.Lock()
+							closed = append(closed, o.C)
+							mu.Unlock()
+						}
+					case "SweepNow":
+						s.SweepNow()
 					case "Kick":
 						s.Kick(creds[o.ID].id, "")
 					}
@@ -497,18 +572,8 @@ func drivePar(env *fw.Env, p parT) *fw.Trace {
 			codePanics.Add(int64(len(panics)))
 			firstPanic.CompareAndSwap(nil, &panics[0])
 			// the panicking call may have skipped its clean-up: continue on a fresh server
-			s.Close()
-			if s, err = newServer(false); err != nil {
+			if err := boot(); err != nil {
 				return &fw.Trace{Status: fw.DriverError, Note: err.Error()}
-			}
-			for i, n := range clientNames {
-				bc, _ := s.NewConn(fmt.Sprintf("10.8.0.%d", i+1))
-				id, secret, _, err := bc.FirstConnect("control")
-				if err != nil || id == 0 {
-					return &fw.Trace{Status: fw.DriverError, Note: "bootstrap first connect failed"}
-				}
-				creds[n] = cred{id, secret}
-				bc.Disconnect()
 			}
 			continue
 		}
@@ -549,16 +614,26 @@ func drive(env *fw.Env, b fw.Behaviour) *fw.Trace {
 func login(id string) opT { return opT{Op: "Login", ID: id, Type: "control"} }
 
 func parBehaviours(env *fw.Env) []json.RawMessage {
-	rounds := 120
+	rounds, races := 120, 1500
 	if env.Tier == "thorough" {
-		rounds = 1500
+		rounds, races = 1500, 20000
 	}
+	const j = 3000 // ns of random offset between the racing sections
+	lj := func(id string) opT { return opT{Op: "Login", ID: id, Type: "control", Jit: j} }
+	first := opT{Op: "Login", ID: "A", Type: "control", NB: true}
+	sync := opT{Op: "Sync", Jit: j}
 	ps := []parT{
 		{Name: "2xLogin(A)+barrier", Barrier: true, Rounds: rounds, Par: [][]opT{{login("A")}, {login("A")}}},
 		{Name: "3xLogin(A)+barrier", Barrier: true, Rounds: rounds, Par: [][]opT{{login("A")}, {login("A")}, {login("A")}}},
+		{Name: "2xLogin(A)+barrier+jitter", Barrier: true, Rounds: races / 2, Par: [][]opT{{lj("A")}, {lj("A")}}},
 		{Name: "Login(A)|Login(A);Close", Rounds: rounds, Par: [][]opT{{login("A")}, {login("A"), {Op: "Close"}}}},
 		{Name: "Login(A)|Login(B)|Kick(A)", Rounds: rounds, Par: [][]opT{{login("A")}, {login("B")}, {{Op: "Kick", ID: "A"}, {Op: "Heartbeat"}}}},
 		{Name: "Login(A);Heartbeat|Login(A);Close|Kick(A)", Rounds: rounds, Par: [][]opT{{login("A"), {Op: "Heartbeat"}}, {login("A"), {Op: "Close"}}, {{Op: "Kick", ID: "A"}}}},
+		// handshake completion of c1 racing with the removal of the SAME connection by another goroutine
+		// (released together right before c1's registry section, random offsets)
+		{Name: "Login(c1,A)+barrier|SweepNow", Barrier: true, Rounds: races, Par: [][]opT{{lj("A")}, {sync, {Op: "SweepNow"}}}},
+		{Name: "Login(c1,A);Login(c1,A)+barrier|Kick(A)", Barrier: true, Rounds: races, Par: [][]opT{{first, lj("A")}, {sync, {Op: "Kick", ID: "A"}}}},
+		{Name: "Login(c1,A)+barrier|CloseConn(c1)", Barrier: true, Rounds: races / 3, Par: [][]opT{{lj("A")}, {sync, {Op: "CloseConn", C: "c1"}}}},
 	}
 	var out []json.RawMessage
 	for _, p := range ps {
@@ -642,30 +717,41 @@ func main() {
 		ID:        "C07",
 		DesignRef: "DESIGN.md §5 C07",
 		ModelJobs: func(env *fw.Env) []fw.TLCJob {
-			lv, lvU, lvS := "10", "8", "10"
-			if env.Tier == "thorough" {
-				lv, lvU, lvS = "99", "10", "99" // 99 = complete state graph
-			}
 			to := 40 * time.Minute // generous: the machine may be shared
-			return withTimeout(to, []fw.TLCJob{
-				{Name: "registry ops, tree with C07-1 and C07-2 (strict invariants)", Module: "Session", Cfg: "Session_c07.cfg",
-					Consts: map[string]string{"FIXES": fixes, "LEVEL": lv, "EMIT": `"no"`, "INV": "C07Inv C07One"}},
-				{Name: "registry ops, tree without patches (invariants masked by the named deviation)", Module: "Session", Cfg: "Session_c07.cfg",
-					Consts: map[string]string{"FIXES": "{}", "LEVEL": lvU, "EMIT": `"no"`, "INV": "C07InvMasked C07OneMasked"}},
-				{Name: "interleaved critical sections, tree with C07-1 and C07-2 (strict invariants)", Module: "Session", Cfg: "Session_split.cfg",
-					Consts: map[string]string{"FIXES": fixes, "LEVEL": lvS, "INV": "C07Inv C07One"}},
-				{Name: "interleaved critical sections, tree with C07-1 only (login race masked)", Module: "Session", Cfg: "Session_split.cfg",
-					Consts: map[string]string{"FIXES": `{"oneIdentity"}`, "LEVEL": lvS, "INV": "C07Inv C07OneMasked"}},
+			strict := "C07Inv C07One"
+			if env.Tier != "thorough" {
+				return withTimeout(to, []fw.TLCJob{
+					{Name: "registry ops depth 8 (strict invariants)", Module: "Session", Cfg: "Session_c07.cfg",
+						Consts: map[string]string{"FIXES": fixes, "LEVEL": "8", "EMIT": `"no"`, "INV": strict}},
+					{Name: "registry ops at the control-connection cap depth 8", Module: "Session", Cfg: "Session_cap.cfg",
+						Consts: map[string]string{"FIXES": fixes, "LEVEL": "8", "EMIT": `"no"`}},
+					{Name: "interleaved critical sections depth 10 (strict invariants)", Module: "Session", Cfg: "Session_split.cfg",
+						Consts: map[string]string{"FIXES": fixes, "FAULTS": "{}", "LEVEL": "10", "INV": strict}},
+				})
+			}
+			return withTimeout(to, []fw.TLCJob{ // LEVEL 99 = complete state graph
+				{Name: "registry ops depth 11 (strict invariants)", Module: "Session", Cfg: "Session_c07.cfg",
+					Consts: map[string]string{"FIXES": fixes, "LEVEL": "11", "EMIT": `"no"`, "INV": strict}},
+				{Name: "registry ops at the control-connection cap, complete", Module: "Session", Cfg: "Session_cap.cfg",
+					Consts: map[string]string{"FIXES": fixes, "LEVEL": "99", "EMIT": `"no"`}},
+				{Name: "interleaved critical sections, complete (strict invariants)", Module: "Session", Cfg: "Session_split.cfg",
+					Consts: map[string]string{"FIXES": fixes, "FAULTS": "{}", "LEVEL": "99", "INV": strict}},
+				{Name: "tree before patches C07-1/C07-2, depth 9 (invariants masked by the named deviations)", Module: "Session", Cfg: "Session_c07.cfg",
+					Consts: map[string]string{"FIXES": "{}", "LEVEL": "9", "EMIT": `"no"`, "INV": "C07InvMasked C07OneMasked"}},
+				{Name: "interleaved critical sections before C07-2, complete (login race masked)", Module: "Session", Cfg: "Session_split.cfg",
+					Consts: map[string]string{"FIXES": `{"oneIdentity"}`, "FAULTS": "{}", "LEVEL": "99", "INV": "C07Inv C07OneMasked"}},
 			})
 		},
 		GenJobs: func(env *fw.Env) []fw.TLCJob {
-			lv, cfg, sims, depth := "6", "Session_c07.cfg", "num=300", 14
+			lv, lvCap, cfg, sims, depth := "6", "6", "Session_c07.cfg", "num=300", 14
 			if env.Tier == "thorough" {
-				lv, cfg, sims, depth = "7", "Session_c07t.cfg", "num=3000", 20
+				lv, lvCap, cfg, sims, depth = "7", "8", "Session_c07t.cfg", "num=3000", 20
 			}
 			return withTimeout(40*time.Minute, []fw.TLCJob{
 				{Name: "gen:transitions", Module: "Session", Cfg: cfg, Workers: 8,
 					Consts: map[string]string{"FIXES": fixes, "LEVEL": lv, "EMIT": `"all"`, "INV": "C07Inv C07One"}},
+				{Name: "gen:cap", Module: "Session", Cfg: "Session_cap.cfg", Workers: 8,
+					Consts: map[string]string{"FIXES": fixes, "LEVEL": lvCap, "EMIT": `"all"`}},
 				{Name: "gen:simulate", Module: "Session", Cfg: cfg, Workers: 4, Simulate: sims, Depth: depth + 1, Seed: env.Seed,
 					Consts: map[string]string{"FIXES": fixes, "LEVEL": fmt.Sprint(depth), "EMIT": `"last"`, "INV": "C07Inv C07One"}},
 			})
@@ -674,7 +760,7 @@ func main() {
 			if env.Tier == "thorough" {
 				return 60000
 			}
-			return 3500
+			return 4500
 		},
 		ExtraBeh:    parBehaviours,
 		Drive:       drive,
@@ -697,6 +783,8 @@ func main() {
 		Assumptions: []string{
 			"the protocol adapter's read loop is emulated: HandlePacket per packet, CloseConnection when the transport is closed (adapter.cleanupConnection)",
 			"heartbeat timeouts are realised with HeartbeatTimeout=120ms and the real sweep ticker; behaviours that overran the margin are discarded",
+			"the control-connection cap is exercised with MaxControlConnections = 2 (Session_cap.cfg); the brute-force threshold is 3 failures (model constant MaxFail)",
+			"concurrent rounds racing a handshake with the removal of the same connection use ClientRegistry.CleanupStale(0, CloseConnection) for the sweep at a chosen instant",
 			"UnregisterForTunnel is driven through ClientRegistry.Unregister directly (what handleTunnelOpen calls), not through a full tunnel open",
 		},
 		TrustedBase: []string{"TLC", "spec/SessionTraceReg.tla as the reading of the C07 statement", "srvkit fake transport and name mapping"},
